@@ -17,9 +17,12 @@ use std::sync::{Arc, Mutex};
 use vharness::{driver, Args, Known, Report, Rng};
 
 /// tenant tags of the model: 0 = the probed tenant (registration from the case), 1 = a
-/// registered but disabled tenant, 2 = a tenant nobody registered.  Only tenant 0 can hold
-/// data; its name sorts first (storage scans of a tenant are C17's subject, not this one's).
-const TENANTS: [&str; 3] = ["a1", "d0", "u0"];
+/// registered but disabled tenant, 2 = a tenant nobody registered, 3 = the pre-registered
+/// `default` tenant (default quotas).  Tenants 0 and 3 hold data in the same store and are both
+/// probed; 1 and 2 can never hold data (their creations fail).
+const TENANTS: [&str; 4] = ["a1", "d0", "u0", "default"];
+const PROBED: [usize; 2] = [0, 3];
+const DEFAULT_CFG: &str = "1.1.1000000.10000000";
 
 #[derive(Clone, Debug)]
 struct Req {
@@ -62,8 +65,8 @@ fn to_request(r: &Req) -> Request {
         },
         Op::DeleteNode(id) => Request::DeleteNode { tenant, node_id: *id },
         Op::DeleteEdge(id) => Request::DeleteEdge { tenant, edge_id: *id },
-        Op::UpdateNode(id, p) => Request::UpdateNodeProperties { tenant, node_id: *id, properties: props_of(p), version: 0 },
-        Op::UpdateEdge(id, p) => Request::UpdateEdgeProperties { tenant, edge_id: *id, properties: props_of(p), version: 0 },
+        Op::UpdateNode(id, p) => Request::UpdateNodeProperties { tenant, node_id: *id, properties: props_of(p), version: p.len() as u64 },
+        Op::UpdateEdge(id, p) => Request::UpdateEdgeProperties { tenant, edge_id: *id, properties: props_of(p), version: (p.len() as u64) * 7 },
     }
 }
 
@@ -80,10 +83,11 @@ fn show_resp(r: &Response) -> String {
 fn setup(pm: &PersistenceManager, cfg: &Cfg) {
     cfg.setup(pm, TENANTS[0]);
     Cfg { registered: true, enabled: false, max_nodes: None, max_edges: None }.setup(pm, TENANTS[1]);
+    // TENANTS[3] = "default" is registered by the manager itself
 }
 
-/// one replica: apply, close, reopen, recover the probed tenant
-fn run_replica(rt: &tokio::runtime::Runtime, dir: &Path, cfg: &Cfg, reqs: &[Req]) -> String {
+/// one replica: apply, close, reopen, recover the probed tenants; one observation per probed tenant
+fn run_replica(rt: &tokio::runtime::Runtime, dir: &Path, cfg: &Cfg, reqs: &[Req]) -> Vec<String> {
     let _ = std::fs::remove_dir_all(dir);
     std::fs::create_dir_all(dir).expect("replica dir");
     let mut resps = vec![];
@@ -98,13 +102,19 @@ fn run_replica(rt: &tokio::runtime::Runtime, dir: &Path, cfg: &Cfg, reqs: &[Req]
     }
     let pm = PersistenceManager::new(dir).expect("reopen");
     setup(&pm, cfg);
-    let d = match dump(&pm, TENANTS[0]) {
-        Ok(d) => d,
-        Err(e) => format!("recover-failed[{}]", e),
-    };
+    let out = PROBED
+        .iter()
+        .map(|t| {
+            let d = match dump(&pm, TENANTS[*t]) {
+                Ok(d) => d,
+                Err(e) => format!("recover-failed[{}]", e),
+            };
+            format!("{}|{}", if resps.is_empty() { "-".to_string() } else { resps.join(",") }, d)
+        })
+        .collect();
     drop(pm);
     let _ = std::fs::remove_dir_all(dir);
-    format!("{}|{}", if resps.is_empty() { "-".to_string() } else { resps.join(",") }, d)
+    out
 }
 
 fn gen_reqs(rng: &mut Rng) -> Vec<Req> {
@@ -112,7 +122,7 @@ fn gen_reqs(rng: &mut Rng) -> Vec<Req> {
     let max_id = 2 + rng.below(3);
     (0..len)
         .map(|_| {
-            let tenant = match rng.below(20) { 0..=14 => 0, 15..=17 => 1, _ => 2 };
+            let tenant = match rng.below(20) { 0..=10 => 0, 11..=14 => 3, 15..=17 => 1, _ => 2 };
             let mut op = gen_op(rng, max_id);
             if let Op::CreateNode { labels, .. } = &mut op {
                 // the wire format is a Vec<String>: repeat / reorder labels now and then
@@ -205,7 +215,7 @@ fn main() {
 
     // run the replicas (8 workers, one case each at a time)
     let next = AtomicUsize::new(0);
-    let out: Mutex<Vec<(usize, Vec<String>)>> = Mutex::new(vec![]);
+    let out: Mutex<Vec<(usize, Vec<Vec<String>>)>> = Mutex::new(vec![]);
     std::thread::scope(|sc| {
         for w in 0..8usize {
             let (next, out, cases, work) = (&next, &out, &cases, work.path());
@@ -215,7 +225,7 @@ fn main() {
                     let i = next.fetch_add(1, Ordering::SeqCst);
                     if i >= cases.len() { break; }
                     let (cfg, reqs, n) = &cases[i];
-                    let obs: Vec<String> = (0..*n).map(|r| run_replica(&rt, &work.join(format!("w{}r{}", w, r)), cfg, reqs)).collect();
+                    let obs: Vec<Vec<String>> = (0..*n).map(|r| run_replica(&rt, &work.join(format!("w{}r{}", w, r)), cfg, reqs)).collect();
                     out.lock().unwrap().push((i, obs));
                 }
             });
@@ -224,36 +234,43 @@ fn main() {
     let mut obs = out.into_inner().unwrap();
     obs.sort_by_key(|(i, _)| *i);
 
-    let cfgs = |c: &Cfg| format!("0={},1=1.0.-.-", c.render());
+    let cfgs = |c: &Cfg| format!("0={},1=1.0.-.-,3={}", c.render(), DEFAULT_CFG);
+    let np = PROBED.len();
     let mut lines = vec![];
     for (i, o) in &obs {
         let (cfg, reqs, _) = &cases[*i];
-        lines.push(format!("replicas {} {} 0", cfgs(cfg), render_reqs(reqs)));
-        lines.push(format!("specreplicas {} 0 {}", render_reqs(reqs), o.join("#")));
+        for (pi, t) in PROBED.iter().enumerate() {
+            let per_replica: Vec<String> = o.iter().map(|r| r[pi].clone()).collect();
+            lines.push(format!("replicas {} {} {}", cfgs(cfg), render_reqs(reqs), t));
+            lines.push(format!("specreplicas {} {} {}", render_reqs(reqs), t, per_replica.join("#")));
+        }
     }
     let replies = driver::par_batch(&exe, &lines, 8);
     let mut first_break: Option<String> = None;
     for (k, (i, o)) in obs.iter().enumerate() {
         let (cfg, reqs, n) = &cases[*i];
-        let (m, s) = (&replies[2 * k], &replies[2 * k + 1]);
         let canon = format!("{} {}", cfg.render(), render_reqs(reqs));
-        let failing = o[0].split('|').next().unwrap_or("").split(',').any(|x| x == "err");
+        let failing = o[0][0].split('|').next().unwrap_or("").split(',').any(|x| x == "err");
         let update = reqs.iter().any(|r| r.op.is_update());
         rep.case(&canon, failing && update);
         rep.count(&format!("replicas:{}", n));
-        for r in reqs { rep.count(&format!("req:{}@{}", r.op.kind(), ["probed", "disabled", "unregistered"][r.tenant])); }
-        for x in o[0].split('|').next().unwrap_or("").split(',') { rep.count(&format!("resp:{}", x.trim_start_matches(|c: char| c == 'n' || c == 'e').parse::<u64>().map(|_| "created").unwrap_or(x))); }
+        for r in reqs { rep.count(&format!("req:{}@{}", r.op.kind(), ["probed", "disabled", "unregistered", "default"][r.tenant])); }
+        for x in o[0][0].split('|').next().unwrap_or("").split(',') { rep.count(&format!("resp:{}", x.trim_start_matches(|c: char| c == 'n' || c == 'e').parse::<u64>().map(|_| "created").unwrap_or(x))); }
         if failing && update && rep.samples.len() < 3 {
             rep.sample(json!({"cfg": cfg.render(), "reqs": render_reqs(reqs), "replica_obs": o[0]}));
         }
-        let body = format!("case {} {} {}\nimpl  {}\nmodel {}\nspec  {}", cfg.render(), render_reqs(reqs), n, o.join(" # "), m, s);
-        if s != "ok" {
-            let sig = if o.iter().any(|x| x != &o[0]) { "replicas-differ" } else if s == "viol" { classify(o[0].split('|').nth(1).unwrap_or(""), m) } else { "driver-rejected" };
-            rep.count(&format!("spec_violation:{}", sig));
-            rep.spec_violation(&known, sig, &format!("replica observations violate the specification ({}) on `{}`", s, render_reqs(reqs)), &body);
-        } else if o.iter().any(|x| format!("ok {}", x) != *m) {
-            rep.count("model_mismatch");
-            if first_break.is_none() { first_break = Some(body); }
+        for (pi, t) in PROBED.iter().enumerate() {
+            let (m, s) = (&replies[2 * (k * np + pi)], &replies[2 * (k * np + pi) + 1]);
+            let per_replica: Vec<String> = o.iter().map(|r| r[pi].clone()).collect();
+            let body = format!("case {} {} {}\nprobed-tenant {}\nimpl  {}\nmodel {}\nspec  {}", cfg.render(), render_reqs(reqs), n, t, per_replica.join(" # "), m, s);
+            if s != "ok" {
+                let sig = if per_replica.iter().any(|x| x != &per_replica[0]) { "replicas-differ" } else if s == "viol" { classify(per_replica[0].split('|').nth(1).unwrap_or(""), m) } else { "driver-rejected" };
+                rep.count(&format!("spec_violation:{}", sig));
+                rep.spec_violation(&known, sig, &format!("replica observations of tenant {} violate the specification ({}) on `{}`", TENANTS[*t], s, render_reqs(reqs)), &body);
+            } else if per_replica.iter().any(|x| format!("ok {}", x) != *m) {
+                rep.count("model_mismatch");
+                if first_break.is_none() { first_break = Some(body); }
+            }
         }
     }
     // model self-test: the model of the pinned tree differs on the corpus witnesses
